@@ -279,6 +279,16 @@ func genErrDoc(r *rng.R, root spec.Kind) *errDoc {
 	// preamble before the root bracket (free of that bracket), possibly with newlines
 	if r.Chance(1, 2) {
 		pre := []string{"// header\n", "\n\n", "garbage text\nmore\n", "  \t", "x = ", "\r\n\r\n", "# a ] b } c\n", strings.Repeat("line\n", 70000), strings.Repeat("\n", 300), "say \"hello\nworld\" twice\n", "\"\n\n\"\n", "'q\n' \"a\nb\nc\" \"\n", "\"unpaired\nquote\n"}[r.Intn(13)]
+		if r.Chance(1, 3) {
+			// a preamble of characters that are near the line feed in some way (other controls, other line separators,
+			// bytes one bit away), at every alignment
+			alphabet := []string{"\n", "\n", "\n", "\v", "\v", "\f", "\r", "\t", "\b", "\x0e", "\x1a", "\x2a", "\x4a", "\x8a", "\x85", "\u2028", "\u2029", "\x00", " ", "a", "\x7f", "\xff"}
+			var sb strings.Builder
+			for k := r.Intn(48); k > 0; k-- {
+				sb.WriteString(alphabet[r.Intn(len(alphabet))])
+			}
+			pre = sb.String()
+		}
 		if root == spec.List {
 			pre = strings.ReplaceAll(pre, "[", "(")
 		} else {
